@@ -222,16 +222,32 @@ func ScheduleUnmanageHAProxyEndpoints(haproxyEndpointsToRemove []*HAProxyEndpoin
 	if len(haproxyEndpointsToRemove) == 0 {
 		return
 	}
+	scheduledAt := make(map[string]uint64, len(haproxyEndpointsToRemove))
+	for _, endpoint := range haproxyEndpointsToRemove {
+		scheduledAt[endpoint.Endpoint] = registrationCount(endpoint.Endpoint)
+	}
 	go func() {
 		clock.Sleep(staleVersionTTL)
-		unmanageHAProxyEndpointsVoided(haproxyEndpointsToRemove)
+		// An endpoint that a later reload registered again is in use: keep it.
+		stillUnused := []*HAProxyEndpointData{}
+		for _, endpoint := range haproxyEndpointsToRemove {
+			if registrationCount(endpoint.Endpoint) == scheduledAt[endpoint.Endpoint] {
+				stillUnused = append(stillUnused, endpoint)
+			}
+		}
+		unmanageHAProxyEndpointsVoided(stillUnused)
 	}()
 }
 
 func scheduleUnmanageHAProxyGlobal() {
 	clock := contextmanager.Get().GetClock()
+	scheduledAt := registrationCount(manageAllRegistration)
 	go func() {
 		clock.Sleep(staleVersionTTL)
+		// Manage-all that a later reload registered again is in use: keep it.
+		if registrationCount(manageAllRegistration) != scheduledAt {
+			return
+		}
 		unmanageGlobalVoided()
 	}()
 }
